@@ -45,6 +45,26 @@ func Module(rt *rapid.T, cfg Cfg) (*am.Module, map[string]int) {
 	for i := 0; i < nf; i++ {
 		g.M.Funcs = append(g.M.Funcs, g.funcHeader())
 	}
+	if g.cfg.DebugInfo && !g.off("di-arglist") && g.chance("twins", 1, 3) {
+		// two definitions with the same unnamed parameter list: whatever refers to their locals from
+		// metadata operands (`!DIArgList(i32 %0, i32 %1)`) is spelled identically in both
+		g.twins = map[*am.Fun]bool{}
+		for k := 0; k < 2; k++ {
+			var f *am.Fun
+			for try := 0; try < 8; try++ {
+				if f = g.funcHeader(); f.Blocks == nil && !f.Decl {
+					break
+				}
+			}
+			if f.Decl {
+				continue
+			}
+			f.Params = []*am.Param{{T: am.I32}, {T: am.I32}}
+			f.Variadic = false
+			g.twins[f] = true
+			g.M.Funcs = append(g.M.Funcs, f)
+		}
+	}
 	ng := g.rng("nglobals", 0, g.cfg.MaxGlobals)
 	if g.cfg.Big {
 		ng = g.rng("nglobalsbig", 8, 11)
